@@ -8,7 +8,7 @@ FUNCS = ['RangeProof::verify_batch', 'RangeProof::verify', 'RangeProof::verify_s
 
 def configs(tier):
     if tier == 'quick':
-        return [(8, 1, 1, 1, True), (2, 2, 4, 2, False), (4, 4, 4, 1, False)]
+        return [(8, 1, 1, 1, True), (2, 2, 4, 2, False), (4, 4, 4, 1, False), (2, 1, 1, 6, True)]
     return [(8, 1, 1, 1, True), (2, 2, 4, 2, False), (4, 4, 4, 1, False), (64, 1, 2, 1, True), (16, 2, 2, 6, False), (1, 2, 2, 3, False), (8, 8, 8, 2, False), (32, 1, 1, 4, False)]
 
 
@@ -75,9 +75,10 @@ def cases(tier):
     for (n, x) in [(4, 1), (2, 2)]:
         small = {'m': 1, 'cap': 1}
         for ts in ({'op': 'h_base'}, {'op': 'g_base', 'k': x - 1}, {'op': 'bit_length', 'n': 2 * n}, {'op': 'g_append'}) + (({'op': 'g_drop_last'},) if x > 1 else ()):
-            for order in ([0, 1], [1, 0], [0, 1, 0]):
+            for order in ([0, 1], [1, 0], [0, 1, 0], [0, 2], [0, 0, 2]):
                 big = {'m': 2, 'cap': 2, 'tamper_statement': ts}
-                members = [[small, big][o] for o in order]
+                same = {'m': 1, 'cap': 1, 'tamper_statement': ts}    # the altered member is no larger than the others (nothing else distinguishes it)
+                members = [[small, big, same][o] for o in order]
                 cfg = {'scenario': 'batch', 'n': n, 'x': x, 'members': members, 'actions': ['VerifyOnly', 'RecoverAndVerify']}
                 out.append({'cfg': cfg, 'name': 'batch %s with the larger member altered: %s (n%d x%d)' % (order, ts['op'], n, x), 'alter': 'batch:' + ts['op']})
     # the blinding-generator vector of a member that is neither first nor largest
